@@ -4,6 +4,7 @@ import (
 	"fmt"
 	"go/token"
 	"go/types"
+	"sort"
 	"strings"
 
 	"golang.org/x/tools/go/ssa"
@@ -11,237 +12,817 @@ import (
 
 // C10 (Batcher) and C11 (Broadcaster) share one rule set: both fan a value out
 // to per-subscriber buffers while holding the component lock.
+//
+// Like C06, the rules are stated over events along the inlined paths of the
+// exported entry points (Subscribe, Broadcast / the callback handed to
+// queue.NewProcessor, Close) and of the forwarder goroutines (evx.go), and the
+// constructs are resolved by role from the exported component type: its mutex,
+// wait group, atomic flag, close channel, the slice of per-subscriber entries,
+// the entry's buffer / release channels and id.
 
 type fanoutCfg struct {
-	Prop      string
-	Rel       string // package rel path
-	Type      string // Batcher | Broadcaster
-	Entry     string // per-subscriber entry type (eventCh)
-	Fanout    string // method that fans out
-	Subscribe string // unexported subscribe method
+	Prop string
+	Rel  string // package rel path
+	Type string // Batcher | Broadcaster (exported)
 }
 
 func init() {
-	register("C10", func(c *Ctx) {
-		checkFanout(c, fanoutCfg{"C10", "events/batcher", "Batcher", "eventCh", "Batcher.execute", "Batcher.subscribe"})
-	})
-	register("C11", func(c *Ctx) {
-		checkFanout(c, fanoutCfg{"C11", "events/broadcaster", "Broadcaster", "eventCh", "Broadcaster.Broadcast", "Broadcaster.subscribe"})
-	})
+	register("C10", func(c *Ctx) { checkFanout(c, fanoutCfg{"C10", "events/batcher", "Batcher"}) })
+	register("C11", func(c *Ctx) { checkFanout(c, fanoutCfg{"C11", "events/broadcaster", "Broadcaster"}) })
+}
+
+type fanRoles struct {
+	cfg     fanoutCfg
+	p       *Prog
+	pkg     string
+	compT   string
+	lockID  string
+	wgID    string
+	closeCh string
+	closed  FieldID
+	subs    FieldID
+	entryT  string
+	bufCh   string // field:<entryT>.<buffer field>
+	t       *evFrames
+	subFn   *ssa.Function
+	fanRoot *ssa.Function
+	closeFn *ssa.Function
+	fns     []*ssa.Function
+}
+
+func (ro *fanRoles) inPkg(fn *ssa.Function) bool {
+	return fn != nil && fn.Pkg != nil && fn.Pkg.Pkg.Path() == ro.pkg
+}
+
+func fanResolve(c *Ctx, cfg fanoutCfg) *fanRoles {
+	p := c.P
+	ro := &fanRoles{cfg: cfg, p: p, pkg: p.ModPath + "/" + cfg.Rel}
+	ro.compT = ro.pkg + "." + cfg.Type
+	st := structOf(p.Named(cfg.Rel, cfg.Type))
+	if st == nil {
+		undecided("%s is not a struct", cfg.Type)
+	}
+	one := func(cur *string, name, what string) {
+		if *cur != "" {
+			undecided("%s has more than one %s field (%s, %s): role not resolvable", cfg.Type, what, *cur, name)
+		}
+		*cur = name
+	}
+	var lock, wg, closed, subs string
+	var chans []string
+	for i := 0; i < st.NumFields(); i++ {
+		f := st.Field(i)
+		nk := namedKey(f.Type())
+		switch {
+		case nk == "sync.Mutex" || nk == "sync.RWMutex":
+			one(&lock, f.Name(), "mutex")
+		case nk == "sync.WaitGroup":
+			one(&wg, f.Name(), "WaitGroup")
+		case nk == "sync/atomic.Bool":
+			one(&closed, f.Name(), "atomic.Bool")
+		default:
+			switch u := f.Type().Underlying().(type) {
+			case *types.Chan:
+				chans = append(chans, f.Name())
+			case *types.Slice, *types.Map:
+				var elem types.Type
+				if s, ok := u.(*types.Slice); ok {
+					elem = s.Elem()
+				} else {
+					elem = u.(*types.Map).Elem()
+				}
+				es := structOf(elem)
+				ek := namedKey(elem)
+				if es == nil || !strings.HasPrefix(ek, ro.pkg+".") {
+					continue
+				}
+				hasChan := false
+				for j := 0; j < es.NumFields(); j++ {
+					if _, ok := es.Field(j).Type().Underlying().(*types.Chan); ok {
+						hasChan = true
+					}
+				}
+				if hasChan {
+					one(&subs, f.Name(), "subscriber-entries")
+					ro.entryT = ek
+				}
+			}
+		}
+	}
+	for what, v := range map[string]string{"mutex": lock, "WaitGroup": wg, "atomic.Bool flag": closed, "subscriber-entries": subs} {
+		if v == "" {
+			undecided("%s has no %s field: role not resolvable", cfg.Type, what)
+		}
+	}
+	ro.lockID = ro.compT + "." + lock
+	ro.wgID = ro.compT + "." + wg
+	ro.closed = FieldID{ro.compT, closed}
+	ro.subs = FieldID{ro.compT, subs}
+	ro.fns = p.FuncsOfPkg(cfg.Rel)
+	ro.subFn = p.Func(cfg.Rel, cfg.Type+".Subscribe")
+	ro.closeFn = p.Func(cfg.Rel, cfg.Type+".Close")
+	// close channel: the channel field of the component that is closed
+	closedCh := map[string]bool{}
+	for _, fn := range ro.fns {
+		for _, cl := range closeSites(fn) {
+			closedCh[cl.Chan] = true
+		}
+	}
+	for _, name := range chans {
+		id := "field:" + ro.compT + "." + name
+		if closedCh[id] || len(chans) == 1 {
+			one(&ro.closeCh, id, "close channel")
+		}
+	}
+	if ro.closeCh == "" {
+		undecided("%s has no channel field that is closed: the shutdown channel is not resolvable", cfg.Type)
+	}
+	// buffer channel of an entry: the entry field that is sent to
+	sent := map[string]bool{}
+	for _, fn := range ro.fns {
+		allInstrs(fn, func(in ssa.Instruction) {
+			switch x := in.(type) {
+			case *ssa.Send:
+				sent[chanIdent(x.Chan)] = true
+			case *ssa.Select:
+				for _, s := range x.States {
+					if s.Dir == types.SendOnly {
+						sent[chanIdent(s.Chan)] = true
+					}
+				}
+			}
+		})
+	}
+	es := structOf(p.evNamedByKey(ro.entryT))
+	var bufByType string
+	for j := 0; es != nil && j < es.NumFields(); j++ {
+		f := es.Field(j)
+		ch, ok := f.Type().Underlying().(*types.Chan)
+		if !ok {
+			continue
+		}
+		id := "field:" + ro.entryT + "." + f.Name()
+		if sent[id] {
+			one(&ro.bufCh, id, "subscriber-buffer")
+		}
+		if s, isStruct := ch.Elem().Underlying().(*types.Struct); !isStruct || s.NumFields() > 0 {
+			bufByType = id
+		}
+	}
+	if ro.bufCh == "" {
+		ro.bufCh = bufByType // nothing sends into an entry any more: reported by M5
+	}
+	if ro.bufCh == "" {
+		undecided("the buffer channel of %s is not resolvable", shortID(ro.entryT))
+	}
+	// fan-out root
+	if cfg.Prop == "C11" {
+		ro.fanRoot = p.Func(cfg.Rel, cfg.Type+".Broadcast")
+	} else {
+		for _, fn := range ro.fns {
+			allInstrs(fn, func(in ssa.Instruction) {
+				call, ok := in.(*ssa.Call)
+				if !ok {
+					return
+				}
+				obj := calleeObj(call)
+				if obj == nil || obj.Name() != "NewProcessor" || obj.Pkg() == nil || !strings.HasSuffix(obj.Pkg().Path(), "/events/queue") || len(call.Call.Args) != 1 {
+					return
+				}
+				if f := evFuncOfValue(p, call.Call.Args[0]); f != nil {
+					ro.fanRoot = f
+				}
+			})
+		}
+		if ro.fanRoot == nil {
+			undecided("the callback handed to queue.NewProcessor is not a statically known function")
+		}
+	}
+	ro.t = newEvFrames(p, func(fn *ssa.Function) bool { return ro.inPkg(fn) })
+	return ro
+}
+
+// evNamedByKey finds the named type with the given "pkgpath.Name" key.
+func (p *Prog) evNamedByKey(key string) types.Type {
+	i := strings.LastIndex(key, ".")
+	if i < 0 {
+		return nil
+	}
+	pkg := p.All[key[:i]]
+	if pkg == nil {
+		return nil
+	}
+	tn, ok := pkg.Types.Scope().Lookup(key[i+1:]).(*types.TypeName)
+	if !ok {
+		return nil
+	}
+	return tn.Type()
+}
+
+// evFuncOfValue: the function a function-typed value denotes (plain function,
+// closure, bound method value).
+func evFuncOfValue(p *Prog, v ssa.Value) *ssa.Function {
+	switch x := v.(type) {
+	case *ssa.Function:
+		return origin(x)
+	case *ssa.MakeClosure:
+		fn, _ := x.Fn.(*ssa.Function)
+		if fn == nil {
+			return nil
+		}
+		if strings.HasSuffix(fn.Name(), "$bound") {
+			if m, ok := fn.Object().(*types.Func); ok {
+				if f := p.SSA.FuncValue(m); f != nil {
+					return origin(f)
+				}
+			}
+		}
+		return origin(fn)
+	case *ssa.ChangeType:
+		return evFuncOfValue(p, x.X)
+	}
+	return nil
+}
+
+// ---- what the Subscribe exploration finds
+
+type fanSubState struct {
+	held      bool
+	added     bool
+	notClosed bool // the closed flag was read false while holding the lock (and the lock not released since)
+}
+
+type fanSubFacts struct {
+	fwd         []*evFrame
+	entryStores map[string]evVal // entry field -> value stored at registration
+	idSrc       evVal
+	idStore     *ssa.Store
+	idField     string
+	untracked   string
+	unchecked   string
+	nGo         int
+	unknown     string
+}
+
+func fanSubscribe(c *Ctx, ro *fanRoles) *fanSubFacts {
+	p := c.P
+	e := c.Locks()
+	ff := &fanSubFacts{entryStores: map[string]evVal{}}
+	x := NewEvExplorer[fanSubState](ro.t)
+	seen := map[*evFrame]bool{}
+	x.Instr = func(cx *EvCtx[fanSubState], in ssa.Instruction, s fanSubState) (fanSubState, bool) {
+		switch v := in.(type) {
+		case *ssa.Store:
+			if fa, ok := v.Addr.(*ssa.FieldAddr); ok && fieldIDOfAddr(fa).Type == ro.entryT {
+				name := fieldIDOfAddr(fa).Field
+				ff.entryStores[name] = cx.Resolve(v.Val)
+				if b, ok := v.Val.Type().Underlying().(*types.Basic); ok && b.Info()&types.IsInteger != 0 {
+					ff.idSrc, ff.idStore, ff.idField = cx.Resolve(v.Val), v, name
+				}
+			}
+		case *ssa.Go:
+			ff.nGo++
+			gf := ro.t.GoFrame(cx.F, v)
+			if gf == nil {
+				ff.untracked = "a goroutine with a dynamic body is started at " + p.Pos(v.Pos())
+				return s, true
+			}
+			if !seen[gf] {
+				seen[gf] = true
+				ff.fwd = append(ff.fwd, gf)
+			}
+			if !s.notClosed {
+				ff.unchecked = "a subscriber is registered and its forwarder started at " + p.Pos(v.Pos()) + " without the closed flag having been read false under " + shortID(ro.lockID) + " (held since): a Subscribe racing with or following Close adds a forwarder that Close does not wait for, which can deliver and close the subscriber channel after Close returned"
+			}
+			if !s.added {
+				ff.untracked = "the forwarder goroutine is started at " + p.Pos(v.Pos()) + " without a preceding wg.Add on " + shortID(ro.wgID) + ": Close can return while it is still running"
+			} else if !s.held {
+				ff.untracked = "the forwarder goroutine is added to the wait group at " + p.Pos(v.Pos()) + " without holding " + shortID(ro.lockID) + ": Close's lock barrier does not order it before wg.Wait"
+			}
+			s.added = false
+		case ssa.CallInstruction:
+			if id, kind, ok := e.lockOp(v); ok && id == ro.lockID {
+				s.held = kind == opLock || kind == opRLock
+				if !s.held {
+					s.notClosed = false
+				}
+				return s, true
+			}
+			if callIs(v, "sync", "WaitGroup", "Add") && wgIdent(v.Common().Args[0]) == ro.wgID {
+				s.added = true
+			}
+		}
+		return s, true
+	}
+	x.Branch = func(cx *EvCtx[fanSubState], ifi *ssa.If, taken bool, s fanSubState) (fanSubState, bool) {
+		key, neg := cx.CondKey(ifi.Cond)
+		if call, ok := key.V.(*ssa.Call); ok && evFlagOp(call, ro.closed) == "Load" {
+			s.notClosed = (taken == neg) && s.held
+		}
+		return s, true
+	}
+	x.Explore(ro.t.Root(ro.subFn), fanSubState{})
+	if x.Incomplete != "" {
+		undecided("Subscribe exploration: %s", x.Incomplete)
+	}
+	ff.unknown = x.UnknownCalls(nil)
+	return ff
+}
+
+// chanRole names a channel value by role: the channel stored into field f of
+// the subscriber entry at registration — whether it is reached as the local
+// it was made into, as a parameter, or by loading the field from the entry — is
+// "entry:f" (type-based identity: all subscribers' entries are one abstract
+// entry); any other channel is named by its value identity.
+func (ro *fanRoles) chanRole(sf *fanSubFacts, k evVal) string {
+	if id, _, ok := fieldOfValue(k.V); ok && id.Type == ro.entryT {
+		return "entry:" + id.Field
+	}
+	var fields []string
+	for f, v := range sf.entryStores {
+		if v == k {
+			fields = append(fields, f)
+		}
+	}
+	if len(fields) > 0 {
+		sort.Strings(fields)
+		return "entry:" + fields[0]
+	}
+	return fmt.Sprintf("val:%d.%d", evFrameID(k.F), ro.t.vid(k.V))
+}
+
+// ---- what the forwarder exploration finds
+
+type fanFwdState struct {
+	held         bool
+	lockTaken    bool
+	closedMask   uint16
+	closedAtLock uint16
+	dereg        bool
+	done         bool
+}
+
+type fanFwdFacts struct {
+	chanKeys        []string // channels (by role / value identity), by index
+	closedBeforeAll uint16   // closed before the first lock acquisition on every exit
+	takesLock       bool
+	allTakeLock     bool
+	dereg           bool
+	allDone         bool
+	nExits          int
+	outMask         uint16 // channels (index in chanKeys) the forwarder sends the values to
+	allCloseOut     bool
+	forwardOK       bool
+	forwardBad      string
+	visited         []*ssa.Function
+	exitWithoutLock string
+	unknown         string
+}
+
+func fanForwarders(c *Ctx, ro *fanRoles, sf *fanSubFacts) *fanFwdFacts {
+	p := c.P
+	e := c.Locks()
+	ff := &fanFwdFacts{closedBeforeAll: 0xffff, allTakeLock: true, allDone: true, allCloseOut: true}
+	role := func(k evVal) string { return ro.chanRole(sf, k) }
+	idx := func(k string) uint16 {
+		for i, kk := range ff.chanKeys {
+			if kk == k {
+				return 1 << uint(i)
+			}
+		}
+		if len(ff.chanKeys) >= 16 {
+			undecided("forwarder closes too many distinct channels")
+		}
+		ff.chanKeys = append(ff.chanKeys, k)
+		return 1 << uint(len(ff.chanKeys)-1)
+	}
+	bufKey := ""
+	if i := strings.LastIndex(ro.bufCh, "."); i >= 0 {
+		bufKey = "entry:" + ro.bufCh[i+1:]
+	}
+	var outKeys []string
+	x := NewEvExplorer[fanFwdState](ro.t)
+	subRoot := ro.t.Root(ro.subFn)
+	checkForward := func(cx *EvCtx[fanFwdState], ch, val ssa.Value, at ssa.Instruction) {
+		if !evDerivesFromParam(cx, cx.F, ch, subRoot) {
+			return // not the channel handed to Subscribe
+		}
+		outKeys = append(outKeys, role(cx.Resolve(ch)))
+		v := cx.Resolve(val)
+		ok := false
+		switch src := v.V.(type) {
+		case *ssa.Extract:
+			if sel, isSel := src.Tuple.(*ssa.Select); isSel && src.Index >= 2 {
+				ri := 0
+				for _, os := range sel.States {
+					if os.Dir == types.RecvOnly {
+						if ri == src.Index-2 && role(cx.ResolveIn(v.F, os.Chan)) == bufKey {
+							ok = true
+						}
+						ri++
+					}
+				}
+			}
+			if u, isRecv := src.Tuple.(*ssa.UnOp); isRecv && u.Op == token.ARROW && src.Index == 0 && role(cx.ResolveIn(v.F, u.X)) == bufKey {
+				ok = true
+			}
+		case *ssa.UnOp:
+			if src.Op == token.ARROW && role(cx.ResolveIn(v.F, src.X)) == bufKey {
+				ok = true
+			}
+		}
+		if ok {
+			ff.forwardOK = true
+		} else if ff.forwardBad == "" {
+			ff.forwardBad = "the forwarder sends at " + p.Pos(instrPos(at)) + " a value that is not the one it received from its buffer"
+		}
+	}
+	x.Instr = func(cx *EvCtx[fanFwdState], in ssa.Instruction, s fanFwdState) (fanFwdState, bool) {
+		switch v := in.(type) {
+		case *ssa.Send:
+			checkForward(cx, v.Chan, v.X, in)
+		case *ssa.Select:
+			for _, st := range v.States {
+				if st.Dir == types.SendOnly {
+					checkForward(cx, st.Chan, st.Send, in)
+				}
+			}
+		case *ssa.Store:
+			if fa, ok := v.Addr.(*ssa.FieldAddr); ok && fieldIDOfAddr(fa) == ro.subs && s.held {
+				s.dereg = true
+			}
+		case *ssa.MapUpdate:
+			if id, _, ok := fieldOfValue(cx.Resolve(v.Map).V); ok && id == ro.subs && s.held {
+				s.dereg = true
+			}
+		case *ssa.Go:
+		case ssa.CallInstruction:
+			if id, kind, ok := e.lockOp(v); ok && id == ro.lockID {
+				if kind == opLock || kind == opRLock {
+					s.held = true
+					if !s.lockTaken {
+						s.lockTaken = true
+						s.closedAtLock = s.closedMask
+					}
+				} else {
+					s.held = false
+				}
+				return s, true
+			}
+			if builtinName(v) == "close" && len(v.Common().Args) == 1 {
+				s.closedMask |= idx(role(cx.Resolve(v.Common().Args[0])))
+			}
+			if builtinName(v) == "delete" && len(v.Common().Args) == 2 {
+				if id, _, ok := fieldOfValue(cx.Resolve(v.Common().Args[0]).V); ok && id == ro.subs && s.held {
+					s.dereg = true
+				}
+			}
+			if callIs(v, "sync", "WaitGroup", "Done") && wgIdent(v.Common().Args[0]) == ro.wgID {
+				s.done = true
+			}
+		}
+		return s, true
+	}
+	type ex struct {
+		s   fanFwdState
+		ret *ssa.Return
+	}
+	var exits []ex
+	for _, f := range sf.fwd {
+		for _, e := range x.Explore(f, fanFwdState{}) {
+			exits = append(exits, ex{e.P.abs, e.Ret})
+		}
+	}
+	if x.Incomplete != "" {
+		undecided("forwarder exploration: %s", x.Incomplete)
+	}
+	for _, k := range outKeys {
+		ff.outMask |= idx(k)
+	}
+	ff.nExits = len(exits)
+	for _, e := range exits {
+		if e.s.lockTaken {
+			ff.takesLock = true
+			ff.closedBeforeAll &= e.s.closedAtLock
+		} else {
+			ff.allTakeLock = false
+			ff.closedBeforeAll = 0
+			ff.exitWithoutLock = p.Pos(instrPos(e.ret))
+		}
+		if e.s.dereg {
+			ff.dereg = true
+		}
+		if !e.s.done {
+			ff.allDone = false
+		}
+		if e.s.closedMask&ff.outMask == 0 {
+			ff.allCloseOut = false
+		}
+	}
+	if len(exits) == 0 {
+		ff.closedBeforeAll, ff.allTakeLock, ff.allDone, ff.allCloseOut = 0, false, false, false
+	}
+	ff.visited = x.Visited()
+	ff.unknown = x.UnknownCalls(nil)
+	return ff
 }
 
 func checkFanout(c *Ctx, cfg fanoutCfg) {
 	r, p := c.R, c.P
 	pre := cfg.Prop
-	pkg := p.ModPath + "/" + cfg.Rel
-	lockID := pkg + "." + cfg.Type + ".lock"
-	wgID := pkg + "." + cfg.Type + ".wg"
-	closeCh := "field:" + pkg + "." + cfg.Type + ".closeCh"
-	bufCh := "field:" + pkg + "." + cfg.Entry + ".ch"
-	e := c.Locks()
-	fns := p.FuncsOfPkg(cfg.Rel)
-	wg := NewWaitGraph(p, e, fns)
-
 	if cfg.Prop == "C10" {
-		r.Explanation = "Decides structural necessary conditions of C10 on events/batcher: (M1) eventChs/currentID only under Batcher.lock; (M2) every send into a subscriber buffer made under the lock sits in a select with a channel the subscriber's forwarder closes BEFORE it takes the lock on its way out (otherwise a subscriber leaving with a full buffer wedges the delivery, every later one and Close); (M3) closeCh — the way out of the fan-out select — can be closed without the lock and without first waiting for the queue processor that may be stuck in that select; (M4) forwarder goroutines are tracked by the wait group, every wait in them has a shutdown case (subscriber context or closeCh), each closes its subscriber channel and deregisters under the lock on every exit, Close waits for them on every path; (M5) Batch enqueues the key through Processor.Enqueue with due time clock.Now()+interval, execute delivers the item's value to every entry of eventChs, and nothing is sent once closed. NOT decided: the per-key debounce law and delivery order over all timelines (C06 covers the queue's own necessary conditions)."
+		r.Explanation = "Decides structural necessary conditions of C10 on events/batcher, over the events along the inlined paths of Subscribe, the queue callback, Close and the forwarder goroutines (constructs resolved by role): (M1) the subscriber list and the id counter only under the Batcher mutex; (M2) every send into a subscriber buffer made under the lock sits in a select with a channel the subscriber's forwarder closes BEFORE it takes the lock on its way out (otherwise a subscriber leaving with a full buffer wedges the delivery, every later one and Close); (M3) the close channel — the way out of the fan-out select — is closed by Close without the lock and without first waiting for the queue processor that may be stuck in that select; (M4) subscribers are registered only after the closed flag was read false under the lock, forwarder goroutines are added to the wait group under the lock before they start and call Done on every exit, every wait in them has a shutdown case (subscriber context and close channel), each closes its subscriber channel and takes the lock to deregister on every exit, Close marks closed, passes the lock barrier, then waits on every path; (M5) Batch enqueues the key through Processor.Enqueue with due time clock.Now()+interval, the callback offers the item's value to every entry of the subscriber list in one critical section, and nothing is sent unless the closed flag was read false; the forwarder passes on exactly what it received. NOT decided: the per-key debounce law and delivery order over all timelines (C06 covers the queue's own necessary conditions)."
 	} else {
-		r.Explanation = "Decides structural necessary conditions of C11 on events/broadcaster: (M1) eventChs/currentID only under Broadcaster.lock and the whole fan-out loop of Broadcast runs in one critical section (necessary for one common order); (M2) every send into a subscriber buffer under the lock selects on a channel the forwarder closes before taking the lock; (M3) closeCh can be closed without the lock a blocked Broadcast holds; (M4) forwarders tracked, shutdown case in every wait, deregistration under the lock on every exit, Close waits for them; (M5) Broadcast delivers its argument to every entry of eventChs and sends nothing once closed; forwarders pass on exactly what they received. NOT decided: exactly-once and common order as runtime facts over all histories."
+		r.Explanation = "Decides structural necessary conditions of C11 on events/broadcaster, over the events along the inlined paths of Subscribe, Broadcast, Close and the forwarder goroutines (constructs resolved by role): (M1) the subscriber list and the id counter only under the Broadcaster mutex and the whole fan-out loop of Broadcast runs in one critical section (necessary for one common order); (M2) every send into a subscriber buffer under the lock selects on a channel the forwarder closes before taking the lock; (M3) the close channel is closed by Close without the lock a blocked Broadcast holds; (M4) subscribers registered only after the closed flag was read false under the lock, forwarders tracked (Add under the lock before go, Done on every exit), shutdown case in every wait, lock-protected deregistration on every exit, Close marks closed, passes the lock barrier and waits; (M5) Broadcast delivers its argument to every entry of the subscriber list and sends nothing unless the closed flag was read false; forwarders pass on exactly what they received. NOT decided: exactly-once and common order as runtime facts over all histories."
 	}
-	r.Assumptions = append(r.Assumptions, "type-based lock and channel identity: all subscribers' buffers are one abstract channel", "subscriber contexts and caller-owned channels can always fire/are drained by their owners")
-	r.Rule(pre+".M1-guard", "eventChs/currentID only under the component lock", 3)
-	r.Rule(pre+".M6-unique-id", "subscriber ids come from a counter that only grows, incremented in the critical section that registers the subscriber", 1)
+	r.Assumptions = append(r.Assumptions, "type-based lock and channel identity: all subscribers' buffers are one abstract channel", "subscriber contexts and caller-owned channels can always fire/are drained by their owners", "helpers are followed through static calls, defer and go of functions of the same package; function values stored in variables are not followed")
+	r.Rule(pre+".M1-guard", "subscriber list / id counter only under the component lock", 3)
+	r.Rule(pre+".M6-unique-id", "subscriber ids come from a counter that only grows, incremented under the lock", 1)
 	if cfg.Prop == "C10" {
 		r.Rule("C10.Q2-atomic-exit", "queue processor: no unlock between 'queue empty' and release of the running token (shared with C06)", 2)
 		r.Rule("C10.Q3-execute", "queue processor: Pop in the critical section that re-checked the head (shared with C06)", 2)
-		r.Rule("C10.Q6-enqueue", "queue processor: Enqueue replaces by key and always calls process() (shared with C06)", 3)
+		r.Rule("C10.Q6-enqueue", "queue processor: Enqueue replaces by key and always tries to start the loop (shared with C06)", 3)
 		r.Rule("C10.Q5-not-early", "queue processor: execute only when due (shared with C06)", 2)
 		r.Rule("C10.Q8-signals", "queue processor: token channel capacities and reset handling (shared with C06)", 4)
 	}
 	r.Rule(pre+".M2-departure-release", "sends into subscriber buffers under the lock select on a channel closed by the departing forwarder before it takes the lock", 1)
-	r.Rule(pre+".M3-close-escape", "closeCh can be closed without the lock held by a blocked fan-out and without waiting for it", 1)
+	r.Rule(pre+".M3-close-escape", "the close channel can be closed without the lock held by a blocked fan-out and without waiting for it", 1)
 	r.Rule(pre+".M4-forwarders", "forwarders tracked by the wait group, with shutdown cases, deregistering under the lock; Close marks closed, passes the lock barrier, then waits", 6)
 	r.Rule(pre+".M5-delivery", "the value is offered to every subscriber entry; nothing sent once closed", 2)
 
-	guards := []GuardSpec{{Field: FieldID{pkg + "." + cfg.Type, "eventChs"}, Lock: lockID}}
-	if c18HasField(structOf(p.Named(cfg.Rel, cfg.Type)), "currentID") {
-		guards = append(guards, GuardSpec{Field: FieldID{pkg + "." + cfg.Type, "currentID"}, Lock: lockID})
-	}
-	CheckGuardedBy(p, e, r, pre+".M1-guard", guards)
+	ro := fanResolve(c, cfg)
+	e := c.Locks()
+	wg := NewWaitGraph(p, e, ro.fns)
+	comp := cfg.Rel + "." + cfg.Type
 
-	sub := p.Func(cfg.Rel, cfg.Subscribe)
-	fan := p.Func(cfg.Rel, cfg.Fanout)
+	sf := fanSubscribe(c, ro)
 
-	// ---- forwarder and its exit path
-	var fwd *ssa.Function
-	for _, g := range goroutinesOf([]*ssa.Function{sub}) {
-		if g.Body != nil && g.Body.Parent() == sub {
-			fwd = g.Body
+	// ---- M1 / M6
+	guards := []GuardSpec{{Field: ro.subs, Lock: ro.lockID}}
+	var counter FieldID
+	if !sf.idSrc.IsZero() {
+		src := sf.idSrc.V
+		if bo, ok := src.(*ssa.BinOp); ok && (bo.Op == token.ADD || bo.Op == token.SUB) {
+			// counter ± constant
+			if _, isK := bo.Y.(*ssa.Const); isK {
+				src = ro.t.Resolve(sf.idSrc.F, bo.X).V
+			} else if _, isK := bo.X.(*ssa.Const); isK && bo.Op == token.ADD {
+				src = ro.t.Resolve(sf.idSrc.F, bo.Y).V
+			}
+		}
+		if cv, ok := src.(*ssa.Convert); ok {
+			src = ro.t.Resolve(sf.idSrc.F, cv.X).V
+		}
+		if id, _, ok := fieldOfValue(src); ok && id.Type == ro.compT {
+			counter = id
+			guards = append(guards, GuardSpec{Field: id, Lock: ro.lockID})
 		}
 	}
-	if fwd == nil {
-		r.Violation(pre+".M4-forwarders", cfg.Rel+"."+cfg.Subscribe+" forwarder", p.Pos(sub.Pos()), "subscribe no longer starts a forwarder goroutine")
+	held, inc := evHeld(p, e, ro.t, append(evExportedRoots(ro.fns), ro.fanRoot), ro.lockID)
+	if inc != "" {
+		r.Undecide("M1: %s", inc)
+	}
+	heldAt := func(in ssa.Instruction) bool {
+		if e.At(in)[ro.lockID] != ModeNone {
+			return true
+		}
+		hs, ok := held[in]
+		return ok && hs&evSeenUnheld == 0
+	}
+	evGuarded(p, e, r, pre+".M1-guard", ro.fns, held, guards)
+	fanUniqueID(c, ro, sf, counter)
+
+	// ---- forwarders
+	if len(sf.fwd) == 0 {
+		evAbsent(r, sf.unknown, pre+".M4-forwarders", comp+" forwarder", p.Pos(ro.subFn.Pos()), "Subscribe no longer starts a forwarder goroutine on any path (all same-package callees followed)")
 		return
 	}
-	// entry fields assigned in subscribe: field name -> channel identity
-	entryFields := map[string]string{}
-	allInstrs(sub, func(in ssa.Instruction) {
-		if st, ok := in.(*ssa.Store); ok {
-			if fa, ok := st.Addr.(*ssa.FieldAddr); ok && fieldIDOfAddr(fa).Type == pkg+"."+cfg.Entry {
-				if _, isCh := st.Val.Type().Underlying().(*types.Chan); isCh {
-					entryFields[fieldIDOfAddr(fa).Field] = chanIdent(st.Val)
-				}
-			}
-		}
-	})
-	// channels the forwarder closes before acquiring the lock on exit (in any of its functions)
-	closedBeforeLock := map[string]bool{}
-	takesLockOnExit := false
-	bodies := append([]*ssa.Function{fwd}, fwd.AnonFuncs...)
-	for _, f := range bodies {
-		var lockInstr ssa.Instruction
-		allInstrs(f, func(in ssa.Instruction) {
-			if call, ok := in.(*ssa.Call); ok {
-				if id, kind, ok := e.lockOp(call); ok && id == lockID && kind == opLock && lockInstr == nil {
-					lockInstr = in
-				}
-			}
-		})
-		if lockInstr == nil {
-			continue
-		}
-		takesLockOnExit = true
-		for _, cl := range closeSites(f) {
-			if instrDominates(cl.Instr, lockInstr) {
-				closedBeforeLock[cl.Chan] = true
-			}
-		}
-	}
-	var releaseFields []string
-	for fld, id := range entryFields {
-		if closedBeforeLock[id] {
-			releaseFields = append(releaseFields, "field:"+pkg+"."+cfg.Entry+"."+fld)
-		}
-	}
-	// ---- M2: sends into the buffer under the lock
-	nSend := 0
-	for _, fn := range fns {
-		allInstrs(fn, func(in ssa.Instruction) {
-			switch x := in.(type) {
-			case *ssa.Send:
-				if chanIdent(x.Chan) == bufCh && e.At(in)[lockID] != ModeNone {
-					nSend++
-					r.Violation(pre+".M2-departure-release", FuncName(p, fn)+" send to subscriber buffer", p.Pos(x.Pos()), "unconditional send into a subscriber buffer while holding the lock: a stalled or departed subscriber blocks it forever")
-				}
-			case *ssa.Select:
-				si := decodeSelect(x)
-				sends := false
-				for _, cs := range si.Cases {
-					if cs.Dir == types.SendOnly && cs.Chan == bufCh {
-						sends = true
-					}
-				}
-				if !sends || e.At(in)[lockID] == ModeNone {
-					return
-				}
-				nSend++
-				ok := !takesLockOnExit
-				for _, cs := range si.Cases {
-					for _, rf := range releaseFields {
-						if cs.Dir == types.RecvOnly && cs.Chan == rf {
-							ok = true
-						}
-					}
-				}
-				if !x.Blocking {
-					ok = true // non-blocking offer cannot wedge
-				}
-				r.Check(ok, pre+".M2-departure-release", FuncName(p, fn)+" send to subscriber buffer", p.Pos(x.Pos()),
-					"the send can be abandoned when the subscriber's forwarder leaves (it closes a per-subscriber channel before taking the lock)",
-					"the fan-out sends into a subscriber's buffer while holding "+shortID(lockID)+"; the forwarder that drains this buffer needs the same lock to deregister when its context ends, and closes no per-subscriber channel before that which this select listens to: a subscriber leaving with a full buffer wedges this delivery, every later one and Close")
-			}
-		})
-	}
-	if nSend == 0 {
-		r.Violation(pre+".M5-delivery", cfg.Rel+"."+cfg.Fanout+" delivers", p.Pos(fan.Pos()), "no send into subscriber buffers under the lock found (values are not delivered, or delivered outside the lock so subscribers see different orders)")
-	}
+	fw := fanForwarders(c, ro, sf)
+	fwdPos := p.Pos(sf.fwd[0].fn.Pos())
 
-	// ---- M3
-	if wg.CheckEscapeClosable(r, pre+".M3-close-escape", closeCh) == 0 {
-		r.Violation(pre+".M3-close-escape", "close sites of "+shortCh(closeCh), p.Pos(fan.Pos()), "the fan-out select no longer has the closeCh case: Close cannot release a delivery blocked on a stalled subscriber")
+	// entry fields whose channel the forwarder closes before it takes the lock, on every exit
+	var releaseFields []string
+	for fld := range sf.entryStores {
+		for i, ck := range fw.chanKeys {
+			if ck == "entry:"+fld && fw.closedBeforeAll&(1<<uint(i)) != 0 {
+				releaseFields = append(releaseFields, "field:"+ro.entryT+"."+fld)
+			}
+		}
 	}
-	// LW-2 on Close's wg.Wait and generic LW-1
+	sort.Strings(releaseFields)
+
+	// ---- M2 / M5: the fan-out
+	nSend, nEscape := fanDelivery(c, ro, releaseFields, fw.takesLock, fw.unknown, heldAt)
+
+	// ---- M3 and Close
+	fanClose(c, ro, wg, nSend, nEscape)
 	wg.CheckLW2(r, pre+".M4-forwarders")
 	wg.CheckLW1(r, pre+".M3-close-escape")
 
 	// ---- M4
-	CheckTracked(p, r, pre+".M4-forwarders", []*ssa.Function{sub}, wgID, nil)
-	CheckShutdownCases(p, e, r, pre+".M4-forwarders", []*ssa.Function{fwd}, []string{closeCh, "done:"}, true)
-	// Close waits on every path
-	closeFn := p.Func(cfg.Rel, cfg.Type+".Close")
-	ffc := &FlagFlow{Fn: closeFn, Must: true, Transfer: func(in ssa.Instruction, st uint64) uint64 {
-		if ci, ok := in.(ssa.CallInstruction); ok && callIs(ci, "sync", "WaitGroup", "Wait") && wgIdent(ci.Common().Args[0]) == wgID {
-			return st | 1
+	// a missing event is only positively missing when every call on the way was followed
+	check := func(ok bool, unknown, construct, okMsg, badMsg string) {
+		if !ok && unknown != "" {
+			r.Undecide("%s: %s — but not every call could be followed (%s)", construct, badMsg, unknown)
+			return
 		}
-		if ci, ok := in.(ssa.CallInstruction); ok && builtinName(ci) == "close" && chanIdent(ci.Common().Args[0]) == closeCh {
-			return st | 2
+		r.Check(ok, pre+".M4-forwarders", construct, fwdPos, okMsg, badMsg)
+	}
+	check(sf.untracked == "", sf.unknown, comp+" forwarder tracked (Add)", "wg.Add under the lock before the forwarder starts", sf.untracked)
+	check(sf.unchecked == "", sf.unknown, comp+" Subscribe closed-check", "subscribers are registered only after the closed flag was read false under the lock", sf.unchecked)
+	check(fw.allDone, fw.unknown, comp+" forwarder tracked (Done)", "wg.Done on every exit of the forwarder", "a forwarder can exit without wg.Done: Close waits forever")
+	var bodies []*ssa.Function
+	for _, fn := range fw.visited {
+		if ro.inPkg(fn) {
+			bodies = append(bodies, fn)
 		}
-		return st
-	}}
-	ffc.Run()
-	okWait := true
-	ffc.AtReturns(func(ret *ssa.Return, st uint64) {
-		if st&1 == 0 {
-			okWait = false
+	}
+	CheckShutdownCases(p, e, r, pre+".M4-forwarders", bodies, []string{ro.closeCh, "done:"}, true)
+	why := ""
+	switch {
+	case (!fw.takesLock || !fw.dereg) && fw.unknown != "":
+		r.Undecide("%s forwarder deregisters: no lock-protected removal from the subscriber list found, but not every call could be followed (%s)", comp, fw.unknown)
+	case !fw.takesLock || !fw.dereg:
+		why = "a departing forwarder never removes its entry from the subscriber list under the lock (all same-package callees followed): later deliveries keep sending into a buffer nobody drains"
+	case !fw.allTakeLock:
+		why = "a forwarder can exit at " + fw.exitWithoutLock + " without running the lock-protected deregistration: its entry stays in the subscriber list and later deliveries keep sending into a buffer nobody drains"
+	}
+	r.Check(why == "", pre+".M4-forwarders", comp+" forwarder deregisters", fwdPos, "every exit of the forwarder passes through the lock-protected removal of its entry", why)
+	if cfg.Prop == "C10" {
+		check(fw.allCloseOut, fw.unknown, comp+" forwarder closes subscriber channel", "subscriber channel closed on every exit of the forwarder", "the forwarder can exit without closing the subscriber's channel (statement: after Close every subscriber channel has been closed)")
+	}
+
+	// ---- M5
+	if fw.forwardBad != "" || !fw.forwardOK {
+		bad := fw.forwardBad
+		if bad == "" {
+			bad = "the forwarder never passes a value received from its buffer to the subscriber's channel (all same-package callees followed)"
 		}
-	})
-	// barrier: subscribe() tests closed and does wg.Add under the lock; Close must pass through the
-	// lock after setting closed and before it starts waiting, or an in-flight subscribe adds a
-	// forwarder to the wait group after Wait has returned
-	const (
-		fCAS     = 4
-		fBarrier = 8
-	)
-	var ffb *FlagFlow
-	ffb = &FlagFlow{Fn: closeFn, Must: true, Transfer: func(in ssa.Instruction, st uint64) uint64 {
-		if _, isDefer := in.(*ssa.Defer); isDefer && !ffb.Replaying {
-			return st // registration of a deferred call, not its execution
+		r.Violation(pre+".M5-delivery", comp+" forwarder forwards", fwdPos, bad)
+	} else {
+		r.OK(pre+".M5-delivery", comp+" forwarder forwards", fwdPos, "forwarder passes on exactly what it received from its buffer")
+	}
+	if cfg.Prop == "C10" {
+		c10Batch(c, ro)
+		c10QueueRules(c)
+	}
+}
+
+// ---------------------------------------------------------------- Close: M3, barrier, waits, close-once
+
+type fanCloseState struct {
+	held      bool
+	marked    bool // closed flag set
+	barrier   bool // lock acquired after marking
+	waitOK    bool
+	waitEarly bool
+	blocked   uint8 // index+1 into reasons: something that may wait for a blocked fan-out happened
+	won       uint8
+}
+
+func fanClose(c *Ctx, ro *fanRoles, wg *WaitGraph, nSend, nEscape int) {
+	r, p := c.R, c.P
+	e := c.Locks()
+	pre := ro.cfg.Prop
+	comp := ro.cfg.Rel + "." + ro.cfg.Type
+	x := NewEvExplorer[fanCloseState](ro.t)
+	var reasons []string
+	reason := func(s string) uint8 {
+		for i, r := range reasons {
+			if r == s {
+				return uint8(i + 1)
+			}
 		}
-		if ci, ok := in.(ssa.CallInstruction); ok {
-			if obj := calleeObj(ci); obj != nil && (obj.Name() == "CompareAndSwap" || obj.Name() == "Store" || obj.Name() == "Swap") {
-				args := ci.Common().Args
-				if len(args) > 0 {
-					if id, _, ok := fieldOfValue(args[0]); ok && id.Field == "closed" {
-						return st | fCAS
+		reasons = append(reasons, s)
+		return uint8(len(reasons))
+	}
+	nClose, okSite := 0, false
+	var badSites []string
+	twice := ""
+	var firstClose token.Pos
+	x.Instr = func(cx *EvCtx[fanCloseState], in ssa.Instruction, s fanCloseState) (fanCloseState, bool) {
+		ci, ok := in.(ssa.CallInstruction)
+		if !ok {
+			return s, true
+		}
+		if _, isGo := in.(*ssa.Go); isGo {
+			return s, true
+		}
+		if id, kind, ok := e.lockOp(ci); ok && id == ro.lockID {
+			if kind == opLock || kind == opRLock {
+				s.held = true
+				if s.marked {
+					s.barrier = true
+				}
+				if s.blocked == 0 {
+					s.blocked = reason("it comes after acquiring " + shortID(ro.lockID) + " (at " + p.Pos(instrPos(in)) + "), which the blocked fan-out holds")
+				}
+			} else {
+				s.held = false
+			}
+			return s, true
+		}
+		switch evFlagOp(ci, ro.closed) {
+		case "CompareAndSwap", "Store", "Swap":
+			s.marked = true
+		}
+		if callIs(ci, "sync", "WaitGroup", "Wait") && wgIdent(ci.Common().Args[0]) == ro.wgID {
+			if s.barrier {
+				s.waitOK = true
+			} else {
+				s.waitEarly = true
+			}
+			if s.blocked == 0 {
+				s.blocked = reason("it comes after wg.Wait() (at " + p.Pos(instrPos(in)) + ")")
+			}
+			return s, true
+		}
+		if builtinName(ci) == "close" && len(ci.Common().Args) == 1 && chanIdent(cx.Resolve(ci.Common().Args[0]).V) == ro.closeCh {
+			nClose++
+			if !firstClose.IsValid() {
+				firstClose = instrPos(in)
+			}
+			at := p.Pos(instrPos(in))
+			switch {
+			case s.held:
+				badSites = append(badSites, "close at "+at+" runs with "+shortID(ro.lockID)+" held, which the blocked fan-out holds")
+			case s.blocked != 0:
+				badSites = append(badSites, "close at "+at+": "+reasons[s.blocked-1])
+			default:
+				okSite = true
+			}
+			if s.won != 1 {
+				twice = "the close channel can be closed at " + at + " by a call of Close that did not win the closed flag: a second Close panics"
+			}
+			return s, true
+		}
+		// calls into other module code that may block on the goroutine stuck in the fan-out
+		if !cx.Inlined {
+			if cal := staticCallee(ci); cal != nil && p.funcSet[cal] && s.blocked == 0 {
+				var ks []string
+				for k := range wg.mayBlock[cal] {
+					ks = append(ks, k)
+				}
+				sort.Strings(ks)
+				for _, k := range ks {
+					if k == "wg.Wait" || strings.HasPrefix(k, "send:") || strings.HasPrefix(k, "recv:") || k == "lock:"+ro.lockID {
+						s.blocked = reason("it comes after the call to " + FuncName(p, cal) + " (at " + p.Pos(instrPos(in)) + "), which may block (" + k + ") on the goroutine stuck in the fan-out select")
+						break
 					}
 				}
 			}
-			if call, ok := in.(*ssa.Call); ok {
-				if id, kind, ok := e.lockOp(call); ok && id == lockID && kind == opLock && st&fCAS != 0 {
-					return st | fBarrier
-				}
-			}
-			if callIs(ci, "sync", "WaitGroup", "Wait") && wgIdent(ci.Common().Args[0]) == wgID {
-				if st&fBarrier != 0 {
-					return st | 16
-				}
-				return st | 32
+		}
+		return s, true
+	}
+	x.Branch = func(cx *EvCtx[fanCloseState], ifi *ssa.If, taken bool, s fanCloseState) (fanCloseState, bool) {
+		key, neg := cx.CondKey(ifi.Cond)
+		if won, ok := evFlagWon(key, taken != neg, ro.closed); ok {
+			s.won = 2
+			if won {
+				s.won = 1
 			}
 		}
-		return st
-	}}
-	ffb.Run()
-	okBarrier := true
-	ffb.AtReturns(func(ret *ssa.Return, st uint64) {
-		if st&16 == 0 || st&32 != 0 {
+		return s, true
+	}
+	exits := x.Explore(ro.t.Root(ro.closeFn), fanCloseState{})
+	if x.Incomplete != "" {
+		r.Undecide("Close exploration: %s", x.Incomplete)
+		return
+	}
+	okWait, okBarrier := len(exits) > 0, len(exits) > 0
+	for _, ex := range exits {
+		s := ex.P.abs
+		if !s.waitOK && !s.waitEarly {
+			okWait = false
+		}
+		if !s.waitOK || s.waitEarly {
 			okBarrier = false
 		}
-	})
-	r.Check(okBarrier, pre+".M4-forwarders", cfg.Rel+"."+cfg.Type+".Close barrier", p.Pos(closeFn.Pos()), "Close passes through the lock after marking closed and before waiting for the forwarders",
+	}
+	pos := p.Pos(ro.closeFn.Pos())
+	// M3
+	construct := "close sites of " + shortCh(ro.closeCh)
+	switch {
+	case nSend > 0 && nEscape == 0:
+		r.Violation(pre+".M3-close-escape", construct, pos, "the fan-out select no longer has the close-channel case: Close cannot release a delivery blocked on a stalled subscriber")
+	case nClose == 0:
+		evAbsent(r, x.UnknownCalls(nil), pre+".M3-close-escape", construct, pos, "a select under a lock relies on "+shortCh(ro.closeCh)+" to be released but Close never closes it (all same-package callees followed)")
+	case okSite:
+		r.OK(pre+".M3-close-escape", construct, p.Pos(firstClose), "Close closes the channel without the lock held by the blocked select and without waiting for it")
+	default:
+		sort.Strings(badSites)
+		r.Violation(pre+".M3-close-escape", construct, p.Pos(firstClose), shortCh(ro.closeCh)+" is the way out of a select that runs with a lock held, but it can only be closed after acquiring that lock / after waiting for the goroutine stuck in that select: both sides wait forever", badSites...)
+	}
+	r.Check(okBarrier, pre+".M4-forwarders", comp+".Close barrier", pos, "Close passes through the lock after marking closed and before waiting for the forwarders",
 		"Close starts waiting for the forwarders without first passing through the component lock after setting the closed flag: a Subscribe that already passed its closed check but has not yet done wg.Add is not waited for — Close returns, and its forwarder then starts, delivers, and closes the subscriber channel after Close returned")
-	r.Check(okWait, pre+".M4-forwarders", cfg.Rel+"."+cfg.Type+".Close waits", p.Pos(closeFn.Pos()), "Close waits for the forwarders on every path", "Close can return without waiting for the forwarder goroutines: values may still be delivered and subscriber channels closed after Close returned")
-	// closeCh closed only under the closed CAS (at most once)
-	for _, u := range wg.byCh[closeCh] {
-		if u.Kind != "close" {
+	r.Check(okWait, pre+".M4-forwarders", comp+".Close waits", pos, "Close waits for the forwarders on every path", "Close can return without waiting for the forwarder goroutines: values may still be delivered and subscriber channels closed after Close returned")
+	// close sites outside Close's call tree
+	visited := map[*ssa.Function]bool{}
+	for _, fn := range x.Visited() {
+		visited[fn] = true
+	}
+	for _, u := range wg.byCh[ro.closeCh] {
+		if u.Kind != "close" || visited[u.Fn] {
 			continue
 		}
 		cas := false
@@ -250,230 +831,259 @@ func checkFanout(c *Ctx, cfg fanoutCfg) {
 				cas = true
 			}
 		}
-		r.Check(cas, pre+".M4-forwarders", FuncName(p, u.Fn)+" close(closeCh) once", p.Pos(instrPos(u.Instr)), "closeCh closed only by the winner of the closed CAS", "closeCh can be closed twice (second Close panics)")
-	}
-	// deregistration: the forwarder's exit removes its entry under the lock (a store to eventChs under the lock in a function deferred by the forwarder)
-	dereg := false
-	for _, f := range bodies {
-		for _, a := range FieldAccesses(f, func(id FieldID) bool { return id.Field == "eventChs" && id.Type == pkg+"."+cfg.Type }) {
-			if a.Kind == AccWrite && e.At(a.Instr)[lockID] == ModeW {
-				dereg = true
-			}
+		if !cas {
+			twice = "the close channel is also closed at " + p.Pos(instrPos(u.Instr)) + " in " + FuncName(p, u.Fn) + " without winning the closed flag: a later Close panics"
 		}
 	}
-	deferred := false
-	allInstrs(fwd, func(in ssa.Instruction) {
-		if d, ok := in.(*ssa.Defer); ok {
-			if f := staticCallee(d); f != nil && f.Parent() == fwd && d.Block() == fwd.Blocks[0] {
-				deferred = true
-			}
-		}
-	})
-	r.Check(dereg && deferred, pre+".M4-forwarders", FuncName(p, fwd)+" deregisters", p.Pos(fwd.Pos()), "forwarder removes its entry under the lock in a function deferred at its start", "a departing forwarder does not remove its entry from eventChs under the lock on every exit: later deliveries keep sending into a buffer nobody drains")
-
-	// ---- M5 delivery: fan-out loop ranges over eventChs; send value is the function's argument (or its field); closed check dominates
-	c10Delivery(c, cfg, fan, pkg, lockID, bufCh)
-	if cfg.Prop == "C10" {
-		c10Batch(c, pkg)
-		c10QueueRules(c)
+	if nClose > 0 {
+		r.Check(twice == "", pre+".M4-forwarders", comp+".Close close(closeCh) once", p.Pos(firstClose), "the close channel is closed only by the winner of the closed flag", twice)
 	}
-	c10UniqueID(c, cfg, sub, pkg, lockID)
-	c10Forward(c, cfg, fwd, sub, entryFields)
 }
 
-// c10Delivery: the fan-out iterates over all of eventChs within one critical
-// section and the loop has no exit other than exhaustion; sends are skipped when closed.
-func c10Delivery(c *Ctx, cfg fanoutCfg, fan *ssa.Function, pkg, lockID, bufCh string) {
-	r, p, e := c.R, c.P, c.Locks()
-	pre := cfg.Prop
-	construct := cfg.Rel + "." + cfg.Fanout + " loop"
-	// find range-over-slice loop on eventChs: index compare against len(load eventChs)
+// ---------------------------------------------------------------- M5 delivery
+
+type fanDelState struct {
+	held      bool
+	notClosed bool
+}
+
+// fanDelivery: the fan-out iterates over all of the subscriber list within one
+// critical section and the loop has no exit other than exhaustion; sends happen
+// only after the closed flag was read false under the lock; the value sent is
+// the fan-out's argument.
+func fanDelivery(c *Ctx, ro *fanRoles, releaseFields []string, takesLock bool, fwdUnknown string, heldAt func(ssa.Instruction) bool) (nUnderLock, nEscape int) {
+	r, p := c.R, c.P
+	e := c.Locks()
+	pre := ro.cfg.Prop
+	comp := ro.cfg.Rel + "." + ro.cfg.Type
+	root := ro.t.Root(ro.fanRoot)
+	x := NewEvExplorer[fanDelState](ro.t)
 	var header *ssa.BasicBlock
-	allInstrs(fan, func(in ssa.Instruction) {
-		ifi, ok := in.(*ssa.If)
-		if !ok {
+	nSend := 0
+	whySend, whyClosed, unkSend := "", "", ""
+	fromRoot := func(cx *EvCtx[fanDelState], v ssa.Value) bool {
+		cur := cx.Resolve(v)
+		for i := 0; i < 8; i++ {
+			switch y := cur.V.(type) {
+			case *ssa.Parameter:
+				return cur.F == root
+			case *ssa.UnOp:
+				if y.Op != token.MUL {
+					return false
+				}
+				cur = cx.ResolveIn(cur.F, y.X)
+			case *ssa.FieldAddr:
+				cur = cx.ResolveIn(cur.F, y.X)
+			case *ssa.Field:
+				cur = cx.ResolveIn(cur.F, y.X)
+			default:
+				return false
+			}
+		}
+		return false
+	}
+	m2seen := map[ssa.Instruction]bool{}
+	m2rule := pre + ".M2-departure-release"
+	m2 := func(cx *EvCtx[fanDelState], in ssa.Instruction, s fanDelState) {
+		if !s.held || m2seen[in] {
 			return
 		}
-		if cmp, ok := decodeCond(ifi.Cond, true); ok {
-			for _, v := range []ssa.Value{cmp.X, cmp.Y} {
-				if call, ok := v.(*ssa.Call); ok && builtinName(call) == "len" {
-					if id, _, ok := fieldOfValue(call.Call.Args[0]); ok && id.Field == "eventChs" {
+		m2seen[in] = true
+		nUnderLock++
+		construct := FuncName(p, in.Parent()) + " send to subscriber buffer"
+		sel, isSel := in.(*ssa.Select)
+		if !isSel {
+			r.Violation(m2rule, construct, p.Pos(instrPos(in)), "unconditional send into a subscriber buffer while holding the lock: a stalled or departed subscriber blocks it forever")
+			return
+		}
+		ok := !takesLock
+		for _, st := range sel.States {
+			if st.Dir != types.RecvOnly {
+				continue
+			}
+			id := chanIdent(cx.Resolve(st.Chan).V)
+			for _, rf := range releaseFields {
+				if id == rf {
+					ok = true
+				}
+			}
+			if id == ro.closeCh {
+				nEscape++
+			}
+		}
+		if !sel.Blocking {
+			ok = true // non-blocking offer cannot wedge
+			nEscape++
+		}
+		if !ok && fwdUnknown != "" {
+			r.Undecide("%s: no per-subscriber channel closed by the forwarder before it takes the lock was found that this select listens to — but not every call of the forwarder could be followed (%s)", construct, fwdUnknown)
+			return
+		}
+		r.Check(ok, m2rule, construct, p.Pos(instrPos(in)),
+			"the send can be abandoned when the subscriber's forwarder leaves (it closes a per-subscriber channel before taking the lock)",
+			"the fan-out sends into a subscriber's buffer while holding "+shortID(ro.lockID)+"; the forwarder that drains this buffer needs the same lock to deregister when its context ends, and closes no per-subscriber channel before that which this select listens to: a subscriber leaving with a full buffer wedges this delivery, every later one and Close")
+	}
+	onSend := func(cx *EvCtx[fanDelState], ch, val ssa.Value, in ssa.Instruction, s fanDelState) {
+		if chanIdent(cx.Resolve(ch).V) != ro.bufCh {
+			return
+		}
+		nSend++
+		m2(cx, in, s)
+		if !s.held && whySend == "" {
+			whySend = "the value is sent into a subscriber buffer at " + p.Pos(instrPos(in)) + " without holding " + shortID(ro.lockID) + ": concurrent fan-outs interleave and subscribers see different orders"
+		}
+		if !fromRoot(cx, val) {
+			if evDerivesFromParam(cx, cx.F, val, root) {
+				if unkSend == "" {
+					unkSend = "the value sent to subscribers at " + p.Pos(instrPos(in)) + " is computed from the argument of " + FuncName(p, ro.fanRoot) + " in a way that is not a plain selection of it"
+				}
+			} else if whySend == "" {
+				whySend = "the value sent to subscribers at " + p.Pos(instrPos(in)) + " is not the value passed to " + FuncName(p, ro.fanRoot)
+			}
+		}
+		if !s.notClosed && whyClosed == "" {
+			whyClosed = "a value can be sent into a subscriber buffer at " + p.Pos(instrPos(in)) + " without the closed flag having been read false: values can be sent after Close returned"
+		}
+	}
+	x.Instr = func(cx *EvCtx[fanDelState], in ssa.Instruction, s fanDelState) (fanDelState, bool) {
+		switch v := in.(type) {
+		case *ssa.Send:
+			onSend(cx, v.Chan, v.X, in, s)
+		case *ssa.Select:
+			for _, st := range v.States {
+				if st.Dir == types.SendOnly {
+					onSend(cx, st.Chan, st.Send, in, s)
+				}
+			}
+		case *ssa.Go:
+		case ssa.CallInstruction:
+			if id, kind, ok := e.lockOp(v); ok && id == ro.lockID {
+				s.held = kind == opLock || kind == opRLock
+			}
+		}
+		return s, true
+	}
+	x.Branch = func(cx *EvCtx[fanDelState], ifi *ssa.If, taken bool, s fanDelState) (fanDelState, bool) {
+		key, neg := cx.CondKey(ifi.Cond)
+		val := taken != neg
+		switch kv := key.V.(type) {
+		case *ssa.Call:
+			if evFlagOp(kv, ro.closed) == "Load" {
+				s.notClosed = !val
+			}
+		case *ssa.BinOp:
+			for _, o := range []ssa.Value{kv.X, kv.Y} {
+				if call, ok := cx.ResolveIn(key.F, o).V.(*ssa.Call); ok && builtinName(call) == "len" {
+					if id, _, ok := fieldOfValue(cx.ResolveIn(key.F, call.Call.Args[0]).V); ok && id == ro.subs && kv.Parent() == ifi.Parent() {
 						header = ifi.Block()
 					}
 				}
 			}
 		}
-	})
-	if header == nil {
-		r.Violation(pre+".M5-delivery", construct, p.Pos(fan.Pos()), "the fan-out no longer iterates over every entry of eventChs")
+		return s, true
+	}
+	x.Explore(root, fanDelState{})
+	if x.Incomplete != "" {
+		r.Undecide("fan-out exploration: %s", x.Incomplete)
 		return
 	}
-	inLoop := map[*ssa.BasicBlock]bool{}
-	for _, b := range fan.Blocks {
-		if reachableFrom(header, nil)[b] && reachableFrom(b, nil)[header] {
-			inLoop[b] = true
-		}
+	// sends into subscriber buffers under the lock elsewhere in the package
+	visited := map[*ssa.Function]bool{}
+	for _, fn := range x.Visited() {
+		visited[fn] = true
 	}
-	why := ""
-	for b := range inLoop {
-		for _, s := range b.Succs {
-			if !inLoop[s] && b != header && !endsInPanic(s) {
-				why = "the fan-out loop can be left early at " + p.Pos(instrPos(b.Instrs[len(b.Instrs)-1])) + ": the remaining subscribers never receive the value"
-			}
+	for _, fn := range ro.fns {
+		if visited[fn] {
+			continue
 		}
-		// lock never released inside the loop
-		for _, in := range b.Instrs {
-			if call, ok := in.(*ssa.Call); ok {
-				if id, kind, ok := e.lockOp(call); ok && id == lockID && (kind == opUnlock || kind == opRUnlock) {
-					why = "the lock is released inside the fan-out loop: concurrent fan-outs interleave and subscribers see different orders"
-				}
-			}
-		}
-	}
-	// the send sits in the loop
-	hasSend := false
-	for b := range inLoop {
-		for _, in := range b.Instrs {
-			if sel, ok := in.(*ssa.Select); ok {
-				for _, st := range sel.States {
-					if st.Dir == types.SendOnly && chanIdent(st.Chan) == bufCh {
-						hasSend = true
-						// value sent: must derive from the fan-out's parameter
-						if !c10FromParam(st.Send, fan) {
-							why = "the value sent to subscribers is not the value passed to " + cfg.Fanout
-						}
+		allInstrs(fn, func(in ssa.Instruction) {
+			bad := false
+			switch v := in.(type) {
+			case *ssa.Send:
+				bad = chanIdent(v.Chan) == ro.bufCh
+			case *ssa.Select:
+				for _, st := range v.States {
+					if st.Dir == types.SendOnly && chanIdent(st.Chan) == ro.bufCh && v.Blocking {
+						bad = true
 					}
 				}
 			}
-		}
-	}
-	if !hasSend && why == "" {
-		why = "no send into the subscriber buffers inside the loop over eventChs"
-	}
-	r.Check(why == "", pre+".M5-delivery", construct, p.Pos(instrPos(header.Instrs[len(header.Instrs)-1])), "every entry of eventChs is offered the argument's value within one critical section", why)
-	// closed check: loop dominated by closed.Load()==false edge
-	closedOK := false
-	for _, dc := range domConds(header) {
-		if call, val, ok := boolCallCond(dc.If.Cond, dc.Branch); ok && !val && calleeObj(call) != nil && calleeObj(call).Name() == "Load" {
-			if id, _, ok := fieldOfValue(call.Call.Args[0]); ok && id.Field == "closed" {
-				closedOK = true
-			}
-		}
-	}
-	r.Check(closedOK, pre+".M5-delivery", cfg.Rel+"."+cfg.Fanout+" closed-check", p.Pos(fan.Pos()), "fan-out skipped once closed", "the fan-out no longer checks the closed flag under the lock: values can be sent after Close returned")
-}
-
-// c10FromParam: v is a parameter of fn or a field loaded from one.
-func c10FromParam(v ssa.Value, fn *ssa.Function) bool {
-	for depth := 0; depth < 6 && v != nil; depth++ {
-		switch x := v.(type) {
-		case *ssa.Parameter:
-			return x.Parent() == fn
-		case *ssa.UnOp:
-			v = x.X
-		case *ssa.FieldAddr:
-			v = x.X
-		case *ssa.Field:
-			v = x.X
-		case *ssa.ChangeType:
-			v = x.X
-		default:
-			return false
-		}
-	}
-	return false
-}
-
-// c10Batch: Batch enqueues through Processor.Enqueue an item whose due time is clock.Now().Add(interval).
-func c10Batch(c *Ctx, pkg string) {
-	r, p := c.R, c.P
-	fn := p.Func("events/batcher", "Batcher.Batch")
-	okEnq, okTTL := false, false
-	allInstrs(fn, func(in ssa.Instruction) {
-		if call, ok := in.(*ssa.Call); ok {
-			if obj := calleeObj(call); obj != nil && obj.Name() == "Enqueue" && obj.Pkg() != nil && strings.HasSuffix(obj.Pkg().Path(), "/events/queue") {
-				okEnq = true
-			}
-		}
-		if st, ok := in.(*ssa.Store); ok {
-			if fa, ok := st.Addr.(*ssa.FieldAddr); ok && fieldIDOfAddr(fa).Field == "ttl" {
-				// value = clock.Now().Add(interval)
-				if add, ok := st.Val.(*ssa.Call); ok && callIs(add, "time", "Time", "Add") {
-					now, isNow := add.Call.Args[0].(*ssa.Call)
-					id, _, isF := fieldOfValue(add.Call.Args[1])
-					if isNow && calleeObj(now) != nil && calleeObj(now).Name() == "Now" && isF && id.Field == "interval" {
-						okTTL = true
-					}
-				}
-			}
-		}
-	})
-	r.Check(okEnq && okTTL, "C10.M5-delivery", "events/batcher.Batcher.Batch enqueue", p.Pos(fn.Pos()), "Batch enqueues (replacing) the key with due time clock.Now()+interval", "Batch no longer enqueues the key through the queue processor with due time clock.Now()+interval (debounce interval wrong or value never delivered)")
-	// ScheduledTime returns ttl, Key returns key
-	for _, spec := range [][2]string{{"item.ScheduledTime", "ttl"}, {"item.Key", "key"}} {
-		f := p.Func("events/batcher", spec[0])
-		ok := false
-		allInstrs(f, func(in ssa.Instruction) {
-			if ret, isRet := in.(*ssa.Return); isRet && len(ret.Results) == 1 {
-				if id, _, isF := fieldOfValue(ret.Results[0]); isF && id.Field == spec[1] {
-					ok = true
-				}
+			if bad && heldAt(in) {
+				nUnderLock++
+				r.Undecide("%s sends into a subscriber buffer under the lock at %s, outside the fan-out path: departure release not analysed there", FuncName(p, fn), p.Pos(instrPos(in)))
 			}
 		})
-		r.Check(ok, "C10.M5-delivery", "events/batcher."+spec[0], p.Pos(f.Pos()), "returns item."+spec[1], spec[0]+" no longer returns item."+spec[1])
 	}
-}
-
-// c10Forward: the forwarder passes exactly the value received from its buffer
-// to the subscriber's channel, and closes the subscriber channel only in
-// batcher (statement: every subscriber channel has been closed).
-func c10Forward(c *Ctx, cfg fanoutCfg, fwd, sub *ssa.Function, entryFields map[string]string) {
-	r, p := c.R, c.P
-	pre := cfg.Prop
-	buf := entryFields["ch"]
-	ok := false
-	why := "the forwarder does not pass the value it received from its buffer to the subscriber's channel"
-	allInstrs(fwd, func(in ssa.Instruction) {
-		sel, isSel := in.(*ssa.Select)
-		if !isSel {
-			return
-		}
-		for _, st := range sel.States {
-			if st.Dir != types.SendOnly {
-				continue
+	construct := comp + " fan-out loop"
+	pos := p.Pos(ro.fanRoot.Pos())
+	if nSend == 0 {
+		evAbsent(r, x.UnknownCalls(nil), pre+".M5-delivery", construct, pos, "the fan-out no longer sends into the subscriber buffers on any path (all same-package callees followed)")
+		return
+	}
+	if whySend == "" && unkSend != "" {
+		r.Undecide("%s fan-out sends: %s", comp, unkSend)
+	} else {
+		r.Check(whySend == "", pre+".M5-delivery", comp+" fan-out sends", pos, "the fan-out's argument is sent into the subscriber buffers while holding the lock", whySend)
+	}
+	if header == nil {
+		r.Undecide("%s: the loop over the subscriber list is not an index loop bounded by len(%s) (form not recognised)", construct, ro.subs)
+	} else {
+		fan := header.Parent()
+		inLoop := map[*ssa.BasicBlock]bool{}
+		fromH := reachableFrom(header, nil)
+		for _, b := range fan.Blocks {
+			if fromH[b] && reachableFrom(b, nil)[header] {
+				inLoop[b] = true
 			}
-			// sent value = extract of an outer select's recv on buf
-			if ex, isEx := st.Send.(*ssa.Extract); isEx {
-				if outer, isSel := ex.Tuple.(*ssa.Select); isSel {
-					k := ex.Index - 2
-					ri := 0
-					for _, os := range outer.States {
-						if os.Dir == types.RecvOnly {
-							if ri == k && chanIdent(os.Chan) == buf {
-								ok = true
-							}
-							ri++
+		}
+		why := ""
+		hasSend := false
+		scan := func(f *ssa.Function, in ssa.Instruction) {
+			switch v := in.(type) {
+			case *ssa.Select:
+				for _, st := range v.States {
+					if st.Dir == types.SendOnly {
+						hasSend = true
+					}
+				}
+			case *ssa.Send:
+				hasSend = true
+			case *ssa.Call:
+				if id, kind, ok := e.lockOp(v); ok && id == ro.lockID && (kind == opUnlock || kind == opRUnlock) {
+					why = "the lock is released inside the fan-out loop (in " + FuncName(p, f) + "): concurrent fan-outs interleave and subscribers see different orders"
+				}
+			}
+		}
+		var blocks []*ssa.BasicBlock
+		for _, b := range fan.Blocks {
+			if inLoop[b] {
+				blocks = append(blocks, b)
+			}
+		}
+		for _, b := range blocks {
+			for _, s := range b.Succs {
+				if !inLoop[s] && b != header && !endsInPanic(s) {
+					why = "the fan-out loop can be left early at " + p.Pos(instrPos(b.Instrs[len(b.Instrs)-1])) + ": the remaining subscribers never receive the value"
+				}
+			}
+			for _, in := range b.Instrs {
+				scan(fan, in)
+				if call, ok := in.(*ssa.Call); ok {
+					if cal := staticCallee(call); cal != nil && ro.inPkg(cal) {
+						for _, f := range evCalleeClosure(p, cal) {
+							allInstrs(f, func(j ssa.Instruction) { scan(f, j) })
 						}
 					}
 				}
 			}
 		}
-	})
-	r.Check(ok, pre+".M5-delivery", FuncName(p, fwd)+" forwards", p.Pos(fwd.Pos()), "forwarder passes on exactly what it received from its buffer", why)
-	if cfg.Prop == "C10" {
-		// close(ch) of the subscriber channel on every exit: in the deferred function
-		closes := false
-		for _, f := range fwd.AnonFuncs {
-			for _, cl := range closeSites(f) {
-				if strings.HasPrefix(cl.Chan, "param:") {
-					closes = true
-				}
-			}
+		if !hasSend && why == "" {
+			why = "no send into the subscriber buffers inside the loop over the subscriber list"
 		}
-		r.Check(closes, pre+".M4-forwarders", FuncName(p, fwd)+" closes subscriber channel", p.Pos(fwd.Pos()), "subscriber channel closed in the forwarder's deferred exit", "the forwarder no longer closes the subscriber's channel on exit (statement: after Close every subscriber channel has been closed)")
+		r.Check(why == "", pre+".M5-delivery", construct, p.Pos(instrPos(header.Instrs[len(header.Instrs)-1])), "every entry of the subscriber list is offered the argument's value within one critical section", why)
 	}
-	_ = fmt.Sprint
-	_ = token.ADD
+	r.Check(whyClosed == "", pre+".M5-delivery", comp+" fan-out closed-check", pos, "fan-out skipped once closed", whyClosed)
+	return
 }
 
 func endsInPanic(b *ssa.BasicBlock) bool {
@@ -484,88 +1094,181 @@ func endsInPanic(b *ssa.BasicBlock) bool {
 	return ok
 }
 
+// ---------------------------------------------------------------- C10: Batch
+
+// c10Batch: Batch enqueues through Processor.Enqueue an item whose due time
+// (the field its ScheduledTime method returns) is clock.Now().Add(interval) and
+// whose key (the field its Key method returns) is Batch's key.
+func c10Batch(c *Ctx, ro *fanRoles) {
+	r, p := c.R, c.P
+	fn := p.Func(ro.cfg.Rel, ro.cfg.Type+".Batch")
+	root := ro.t.Root(fn)
+	type none struct{}
+	x := NewEvExplorer[none](ro.t)
+	nEnq := 0
+	whyTTL, whyKey := "", ""
+	retField := func(t types.Type, method string) (FieldID, *ssa.Function) {
+		ms := p.SSA.MethodSets.MethodSet(t)
+		for i := 0; i < ms.Len(); i++ {
+			if ms.At(i).Obj().Name() != method {
+				continue
+			}
+			mo, _ := ms.At(i).Obj().(*types.Func)
+			if mo == nil {
+				continue
+			}
+			f := p.SSA.FuncValue(mo.Origin())
+			if f == nil {
+				continue
+			}
+			f = origin(f)
+			var out FieldID
+			n := 0
+			allInstrs(f, func(in ssa.Instruction) {
+				if ret, ok := in.(*ssa.Return); ok && len(ret.Results) == 1 && in.Block() != f.Recover {
+					if id, _, ok := fieldOfValue(ret.Results[0]); ok {
+						out = id
+						n++
+					} else {
+						n += 2
+					}
+				}
+			})
+			if n == 1 {
+				return out, f
+			}
+			return FieldID{}, f
+		}
+		return FieldID{}, nil
+	}
+	var schedFn, keyFn *ssa.Function
+	x.Instr = func(cx *EvCtx[none], in ssa.Instruction, s none) (none, bool) {
+		call, ok := in.(*ssa.Call)
+		if !ok {
+			return s, true
+		}
+		obj := calleeObj(call)
+		if obj == nil || obj.Name() != "Enqueue" || obj.Pkg() == nil || !strings.HasSuffix(obj.Pkg().Path(), "/events/queue") || len(call.Call.Args) != 2 {
+			return s, true
+		}
+		nEnq++
+		item := cx.Resolve(call.Call.Args[1])
+		alloc, ok := item.V.(*ssa.Alloc)
+		if !ok {
+			whyTTL = "the item handed to Enqueue at " + p.Pos(call.Pos()) + " is not a fresh item built by Batch"
+			return s, true
+		}
+		var due, key FieldID
+		due, schedFn = retField(alloc.Type(), "ScheduledTime")
+		key, keyFn = retField(alloc.Type(), "Key")
+		stored := map[string]evVal{}
+		for _, rf := range refs(alloc) {
+			fa, ok := rf.(*ssa.FieldAddr)
+			if !ok {
+				continue
+			}
+			for _, rr := range refs(fa) {
+				if st, ok := rr.(*ssa.Store); ok && st.Addr == ssa.Value(fa) {
+					stored[fieldIDOfAddr(fa).Field] = cx.ResolveIn(item.F, st.Val)
+				}
+			}
+		}
+		// due = clock.Now().Add(<Duration field of the component>)
+		okTTL := false
+		if v, ok := stored[due.Field]; ok && due.Field != "" {
+			if add, ok := v.V.(*ssa.Call); ok && callIs(add, "time", "Time", "Add") && len(add.Call.Args) == 2 {
+				now := cx.ResolveIn(v.F, add.Call.Args[0])
+				d := cx.ResolveIn(v.F, add.Call.Args[1])
+				id, _, isF := fieldOfValue(d.V)
+				if evCalleeName(now.V) == "Now" && isF && id.Type == ro.compT && namedKey(d.V.Type()) == "time.Duration" {
+					okTTL = true
+				}
+			}
+		}
+		if !okTTL {
+			whyTTL = "Batch no longer enqueues the key with due time clock.Now()+interval (the value its ScheduledTime() returns): debounce interval wrong or value never delivered"
+		}
+		okKey := false
+		if v, ok := stored[key.Field]; ok && key.Field != "" {
+			if pa, ok := v.V.(*ssa.Parameter); ok && v.F == root && len(fn.Params) > 1 && pa == fn.Params[1] {
+				okKey = true
+			}
+		}
+		if !okKey {
+			whyKey = "the item Batch enqueues does not carry Batch's key as the key its Key() method returns: replace-by-key (the debounce) no longer works"
+		}
+		return s, true
+	}
+	x.Explore(root, none{})
+	if x.Incomplete != "" {
+		r.Undecide("Batch exploration: %s", x.Incomplete)
+		return
+	}
+	pos := p.Pos(fn.Pos())
+	if nEnq == 0 {
+		evAbsent(r, x.UnknownCalls(nil), "C10.M5-delivery", "events/batcher.Batcher.Batch enqueue", pos, "Batch no longer enqueues the key through the queue processor (all same-package callees followed)")
+		return
+	}
+	r.Check(whyTTL == "", "C10.M5-delivery", "events/batcher.Batcher.Batch enqueue", pos, "Batch enqueues (replacing) the key with due time clock.Now()+interval", whyTTL)
+	if schedFn != nil && keyFn != nil {
+		r.Check(whyKey == "", "C10.M5-delivery", "events/batcher.Batcher.Batch item key", pos, "the enqueued item's Key() is Batch's key", whyKey)
+	}
+}
+
 // c10QueueRules runs the queue.Processor rules of C06 that the batcher's
 // delivery guarantee rests on, under C10 rule ids.
 func c10QueueRules(c *Ctx) {
 	old := c06Prefix
 	c06Prefix = "C10."
 	defer func() { c06Prefix = old }()
-	q := c.P.ModPath + "/events/queue"
-	lockID := q + ".Processor.lock"
-	loop := c.P.Func("events/queue", "Processor.processLoop")
-	c06AtomicExit(c, loop, lockID, "field:"+q+".Processor.processorRunningCh")
-	c06Execute(c, lockID)
-	c06Enqueue(c, lockID)
-	c06NotEarly(c, loop)
-	c06Signals(c, loop)
+	ro := c06Resolve(c)
+	c06AtomicExit(c, ro)
+	c06Execute(c, ro)
+	c06Enqueue(c, ro)
+	c06NotEarly(c, ro)
+	c06Signals(c, ro)
 }
 
-// c10UniqueID: the id stored in a subscriber entry is the value of a counter
-// field of the component that is incremented (by a positive constant) in the
-// same function under the lock and never assigned otherwise; the
-// deregistration compares entries with that id.
-func c10UniqueID(c *Ctx, cfg fanoutCfg, sub *ssa.Function, pkg, lockID string) {
+// ---------------------------------------------------------------- M6
+
+// fanUniqueID: the id stored in a subscriber entry is the value of a counter
+// field of the component that is only ever incremented (by one) under the lock.
+func fanUniqueID(c *Ctx, ro *fanRoles, sf *fanSubFacts, counter FieldID) {
 	r, p, e := c.R, c.P, c.Locks()
-	construct := cfg.Rel + "." + cfg.Subscribe + " subscriber id"
-	var idStore *ssa.Store
-	allInstrs(sub, func(in ssa.Instruction) {
-		if st, ok := in.(*ssa.Store); ok {
-			if fa, ok := st.Addr.(*ssa.FieldAddr); ok && fieldIDOfAddr(fa).Type == pkg+"."+cfg.Entry && fieldIDOfAddr(fa).Field == "id" {
-				idStore = st
-			}
-		}
-	})
-	if idStore == nil {
-		r.Violation(cfg.Prop+".M6-unique-id", construct, p.Pos(sub.Pos()), "subscriber entries no longer carry an id: a departing forwarder cannot identify its own entry")
+	comp := ro.cfg.Rel + "." + ro.cfg.Type
+	construct := comp + " subscriber id"
+	rule := ro.cfg.Prop + ".M6-unique-id"
+	if sf.idStore == nil {
+		r.Violation(rule, construct, p.Pos(ro.subFn.Pos()), "subscriber entries no longer carry an id: a departing forwarder cannot identify its own entry")
 		return
 	}
-	// trace the stored value to a load of a component field (through a local cell)
-	src := idStore.Val
-	for i := 0; i < 4; i++ {
-		if u, ok := src.(*ssa.UnOp); ok && u.Op == token.MUL {
-			if cell := cellOf(u.X); cell != nil {
-				var only ssa.Value
-				n := 0
-				for _, rr := range refs(cell) {
-					if st, ok := rr.(*ssa.Store); ok && st.Addr == ssa.Value(cell) {
-						only, n = st.Val, n+1
-					}
-				}
-				if n == 1 {
-					src = only
-					continue
-				}
-			}
-		}
-		break
-	}
-	id, _, ok := fieldOfValue(src)
 	why := ""
-	if !ok || id.Type != pkg+"."+cfg.Type {
-		why = "the subscriber id is not taken from a counter field of the " + cfg.Type + " (e.g. len(eventChs), which repeats after a departure): a newcomer can get the id of a live subscriber, and when it leaves its forwarder removes the wrong entry — that subscriber stays subscribed but never receives another value"
+	if counter.Field == "" {
+		why = "the subscriber id is not taken from a counter field of the " + ro.cfg.Type + " (e.g. len of the subscriber list, which repeats after a departure): a newcomer can get the id of a live subscriber, and when it leaves its forwarder removes the wrong entry — that subscriber stays subscribed but never receives another value"
 	} else {
-		// every store to that field (outside constructors): field = field + positive const, under the lock
 		inc := false
-		for _, fn := range p.FuncsOfPkg(cfg.Rel) {
+		for _, fn := range ro.fns {
 			allInstrs(fn, func(in ssa.Instruction) {
 				st, ok := in.(*ssa.Store)
 				if !ok {
 					return
 				}
 				fa, ok := st.Addr.(*ssa.FieldAddr)
-				if !ok || fieldIDOfAddr(fa) != id || isFreshBase(fa.X) {
+				if !ok || fieldIDOfAddr(fa) != counter || isFreshBase(fa.X) {
 					return
 				}
-				if refDelta(st, id) == 1 && e.At(st)[lockID] == ModeW && fn == sub {
+				if refDelta(st, counter) == 1 && e.At(st)[ro.lockID] == ModeW {
 					inc = true
 				} else {
-					why = "the id counter " + id.String() + " is assigned at " + p.Pos(st.Pos()) + " other than by +1 under the lock in " + cfg.Subscribe + ": ids can repeat"
+					why = "the id counter " + counter.String() + " is assigned at " + p.Pos(st.Pos()) + " other than by +1 under the lock: ids can repeat"
 				}
 			})
 		}
 		if !inc && why == "" {
-			why = "the id counter " + id.String() + " is not incremented when a subscriber registers: all subscribers share one id"
+			why = "the id counter " + counter.String() + " is not incremented when a subscriber registers: all subscribers share one id"
 		}
 	}
-	r.Check(why == "", cfg.Prop+".M6-unique-id", construct, p.Pos(idStore.Pos()), "ids come from a monotonically increasing counter", why)
+	r.Check(why == "", rule, construct, p.Pos(sf.idStore.Pos()), "ids come from a monotonically increasing counter", why)
 }
+
+var _ = fmt.Sprint
